@@ -39,7 +39,7 @@ def add_macros(p: Program) -> None:
             i in s.tasks and s.tasks[i][1] == c
             and s.tasks[i][0] in s.mailboxes), 'Conn', 'UUID')
      and forall(lambda c: implies(c in s.clients,
-            not (c in s.conn_to_employee_dict)), 'Conn')
+            not (c in s.conn_to_employee_dict) and not c.closed), 'Conn')
     )''')
     p.macro('Inv_srv', ['s'], 'Inv_core(s) and Inv_cli(s)')
     # ---- employees ------------------------------------------------------
